@@ -1995,6 +1995,7 @@ class Result:
         """
 
         result = self.copy()
+        if l or p: l,p = l or 'learner_id', p or 'environment_id' #the documented defaults when only one of the two is given
         if l or p: result = result._group_p(l,p)
         if n     : result = result._global_n(n)
         #dropping evaluations that are shorter than n can leave incomplete pairing groups behind
